@@ -126,6 +126,8 @@ pub struct LetInfo {
     pub field_name: String,
     /// decl id of the class / def whose body contains the override
     pub owner: usize,
+    /// adjacent `//` doc lines above the `let` (what hover on the overriding name shows)
+    pub doc: Option<String>,
 }
 
 #[derive(Clone, Debug, Default)]
@@ -1474,10 +1476,11 @@ impl<'a> Sem<'a> {
                     let names: Vec<String> = fields.keys().cloned().collect();
                     let n = names[self.rng.below(names.len())].clone();
                     let (ty, d) = fields[&n].clone();
+                    let ldoc = self.doc_comment();
                     self.w("let ");
                     let r = self.ident(&n, Role::Override(d));
                     self.p.decls[d].overridden = true;
-                    self.p.lets.push(LetInfo { file: self.cur, name_range: r, field_ty: ty.clone(), field_name: n.clone(), owner });
+                    self.p.lets.push(LetInfo { file: self.cur, name_range: r, field_ty: ty.clone(), field_name: n.clone(), owner, doc: ldoc });
                     self.w(" = ");
                     // `let f = f` is rejected by TableGen (self-assignment): hide the field itself
                     let saved = self.rec_fields.clone();
